@@ -9,7 +9,7 @@
 //!   bo <v> <stages>                       block_on(scripted future returning v)
 //!   ex <stages per task: a+b+c ...>       Executor: spawn one task per word, join all
 //! stages: s<us> (timer sleep) e<us> (completed by another thread after us) y (yield once) x (never)
-//!         Y (wakes twice inside one poll: manual reproduction of the block_timeout deadlock only)
+//!         Y (wakes twice inside one poll)
 use std::future::Future;
 use std::pin::Pin;
 use std::sync::atomic::{AtomicBool, AtomicI64, Ordering};
@@ -384,9 +384,8 @@ enum Stage {
     TimerSleep(i128),
     Ext(i128),
     Yield,
-    /// wakes TWICE from inside one poll.  Never generated by props/C42.py: under block_timeout this
-    /// blocks forever in the waker's send (finding C42-block-timeout-self-wake-deadlock); kept for
-    /// manual reproduction: `echo 'bt 1000 1 0 Y' | timeout 5 c42`
+    /// wakes TWICE from inside one poll (hung block_timeout before fix 7de0553: blocking send
+    /// into the one-slot wake channel; regression input `bt 1000 1 0 Y`)
     Yield2,
     Never,
 }
